@@ -242,9 +242,11 @@ QUERIES_OK = ["$", "$.a", "$.a[*]", "$..b", "$.a[?@ > 1]", "$.a[?@.b == 'x']", "
 QUERIES_BAD = ["$[", "$.a[?", "$[?@.a ==]", "$.a[?length(@.*) > 1]", "$[?count(1) > 1]", "$[?foo(@)]", "$[?nosuch(@.a) == 1]", "$[9007199254740992]", "$[01]", "$['a',]",
                "$[?@.a == 'x", "$..", "$[?@ =~ /(/]", "$[1e400]", "$[?!length(@)]", "$[?1e400 == @]",
                # rejected inputs that carry line breaks of their own: the message must still be one line
-               "$[?@.a 'x\ny' == 1]", "$[?'a\nb']", "$.a\n&", "$[?@.a\n===\n1]", "$[?@ == 1 'l1\r\nl2']", "$.a |\n", "$['a\nb' 'c']", "$[?@.a 'x\ry' == 1]", "$.a\r&", "$['a\rb' 'c']"]
+               "$[?@.a 'x\ny' == 1]", "$[?'a\nb']", "$.a\n&", "$[?@.a\n===\n1]", "$[?@ == 1 'l1\r\nl2']", "$.a |\n", "$['a\nb' 'c']", "$[?@.a 'x\ry' == 1]", "$.a\r&", "$['a\rb' 'c']",
+               # inline expressions that begin with a character argument parsers like to give a meaning of their own
+               "@.a", "@", "@[0]", "+1", "%a", "=a", "!a", "~~", "?@.a", "#"]
 POINTERS_OK = ["", "/a", "/a/0", "/a/2/b", "/b/c/1", "/e", "/1/0", "/s", "/e%20f", "/caf%C3%A9/0", "/p%25q", "/e f", "/caf\u00e9", "/\\u0061/0", "/\\u0062", "/\\u0073"]
-POINTERS_BAD = ["/zz", "/a/9", "/a/-", "/s/0", "a", "/a/x", "/b/c/2", "/a/01", "/\\u12", "/%zz", "/z\nz", "a\nb", "/a/1\n", "/a/\r\n0", "/a/\r0", "/s/x\ry", "/z\rz", "a\rb"]
+POINTERS_BAD = ["/zz", "/a/9", "/a/-", "/s/0", "a", "/a/x", "/b/c/2", "/a/01", "/\\u12", "/%zz", "/z\nz", "a\nb", "/a/1\n", "/a/\r\n0", "/a/\r0", "/s/x\ry", "/z\rz", "a\rb", "@/a", "@", "+/a", "=/a", "%/a", "?/a"]
 PATCHES_OK = [[{"op": "add", "path": "/n", "value": 1}], [{"op": "remove", "path": "/a/0"}], [{"op": "replace", "path": "/e", "value": [1]}],
               [{"op": "move", "from": "/a/0", "path": "/b/m"}], [{"op": "copy", "from": "/b", "path": "/a/-"}], [{"op": "test", "path": "/a/0", "value": 1}],
               [], [{"op": "add", "path": "", "value": {"x": 1}}], [{"op": "add", "path": "/a/3", "value": "é"}],
